@@ -170,7 +170,9 @@ func transport(reg *payloads.RegisterRequestPayload, ver kmip.ProtocolVersion, e
 }
 
 type equaler interface{ Equal(x crypto.PublicKey) bool }
-type privEqualer interface{ Equal(x crypto.PrivateKey) bool }
+type privEqualer interface {
+	Equal(x crypto.PrivateKey) bool
+}
 
 func TestC14Keys(t *testing.T) {
 	const name = "TestC14Keys"
